@@ -28,6 +28,7 @@ def rules(ctx):
     c143(ctx)
     c144(ctx)
     c145(ctx)
+    c146(ctx)
 
 
 def state_sources(f, op):
@@ -421,3 +422,66 @@ def c145(ctx):
 
 def _stores(f, l):
     return [((b.idx, j), st) for b in f.blocks for j, st in enumerate(b.st) if st["s"] == "=" and not st["lhs"]["p"] and st["lhs"]["l"] == l]
+
+
+def _is_prime_op(f, o):
+    return any(q["k"] == "const" and (q.get("named") or "").endswith("SETSUM_PRIMES") for q in P.origins(f, o, through_calls=False))
+
+
+def _ix_roots(f, o, depth=0):
+    """Index variables (roots) of the array reads an operand is computed from, following casts and copies."""
+    out = set()
+    if o is None or o.get("k") not in ("copy", "move") or depth > 6:
+        return out
+    for e in o["pl"]["p"]:
+        if isinstance(e, dict) and "ix" in e:
+            out.add(K.root_local(f, {"k": "copy", "pl": {"l": e["ix"], "p": []}}))
+    if not o["pl"]["p"]:
+        for _sp, st in _stores(f, o["pl"]["l"]):
+            rv = st["rv"]
+            if rv["r"] in ("use", "cast"):
+                out |= _ix_roots(f, rv["a"], depth + 1)
+    return out
+
+
+def c146(ctx):
+    """Reduction modulo the column's prime is exact: the value is compared with the prime with `>=` (a column equal to p must become 0:
+    digests compare columns for equality) and the prime subtracted on exactly that edge is the prime of the same column; in add_state
+    the two columns are widened before they are added (u32 + u32 can exceed u32)."""
+    R = "C14.6"
+    ctx.declare(R, "the conditional subtraction reduces exactly: compare with >=, subtract the same column's prime on that edge, add in 64 bits")
+    for name in ("add_state", "hash_to_state"):
+        f = ctx.fn(R, S + name)
+        if not f:
+            continue
+        subs = [((b.idx, j), st) for b in f.blocks for j, st in enumerate(b.st)
+                if st["s"] == "=" and st["rv"]["r"] == "bin" and st["rv"]["op"] in ("Sub", "SubWithOverflow", "SubUnchecked") and _is_prime_op(f, st["rv"]["b"])]
+        ctx.check(R, f, "one-reduction", len(subs) == 1, "%s subtracts the prime at one site" % name, "expected one `x - prime` in %s, found %d" % (name, len(subs)))
+        for sp, st in subs:
+            x = K.root_local(f, st["rv"]["a"])
+            good = None
+            for g in K.compare_guards(f, sp):
+                a, b, op = g["a"], g["b"], g["op"]
+                if not g["holds"]:
+                    op = {"Lt": "Ge", "Le": "Gt", "Gt": "Le", "Ge": "Lt"}.get(op, op)
+                if _is_prime_op(f, a) and not _is_prime_op(f, b):
+                    a, b, op = b, a, {"Le": "Ge", "Lt": "Gt", "Ge": "Le", "Gt": "Lt"}.get(op, op)
+                if _is_prime_op(f, b) and K.root_local(f, a) == x:
+                    good = op
+                    ixc = _ix_roots(f, b)
+            ctx.check(R, f, "reduce-when-ge", good == "Ge", "the prime is subtracted exactly when value >= prime",
+                      "the prime is subtracted under `value %s prime`: a column equal to its prime is not reduced to 0 (or a smaller one wraps)" % {"Gt": ">", "Lt": "<", "Le": "<=", None: "?"}.get(good, good), pt=sp)
+            if good:
+                ixs = _ix_roots(f, st["rv"]["b"])
+                ctx.check(R, f, "same-column-prime", len(ixs) == 1 and ixs == ixc, "the prime compared with and the prime subtracted are the same column's",
+                          "the prime subtracted is not the prime compared with", pt=sp)
+        if name == "add_state":
+            adds = [((b.idx, j), st) for b in f.blocks for j, st in enumerate(b.st)
+                    if st["s"] == "=" and st["rv"]["r"] == "bin" and st["rv"]["op"] in ("Add", "AddWithOverflow", "AddUnchecked")
+                    and not any(o.get("k") == "const" for o in (st["rv"]["a"], st["rv"]["b"]))]
+            ctx.check(R, f, "one-column-add", len(adds) == 1, "add_state adds the two columns at one site", "expected one column addition in add_state, found %d" % len(adds))
+            for sp, st in adds:
+                tys = {f.locals[o["pl"]["l"]] for o in (st["rv"]["a"], st["rv"]["b"])}
+                ctx.check(R, f, "add-in-64-bits", tys == {"u64"}, "the columns are added as u64", "the columns are added as %s: the sum of two columns can exceed u32" % sorted(tys), pt=sp)
+                ia, ib = _ix_roots(f, st["rv"]["a"]), _ix_roots(f, st["rv"]["b"])
+                ctx.check(R, f, "same-column-operands", len(ia) == 1 and ia == ib, "both operands are the same column of lhs and rhs", "the addition mixes columns", pt=sp)
